@@ -504,7 +504,7 @@ func Expect(op Op, p St, res Result) []Alt {
 			return []Alt{{Name: "created-xattr-only", BodyNil: true, X: plan.X, ExpLo: 0, ExpHi: 0, Event: true}, anyFail("refused")}
 		}
 		a := Alt{Name: "xattrs-set", Body: p.Body, BodyNil: p.Body == nil, X: plan.X, ExpLo: p.Exp, ExpHi: p.Exp, Event: true}
-		return sizeGate(a, p.Body, p.X, op.X)
+		return sizeGate(a, p.Body, plan.X.Keep, op.X)
 
 	case "UpdateXattrs":
 		return withMacrosAll(expectUpdateXattrs(op, p, res, lo, hi, cc), withMacros)
@@ -523,7 +523,7 @@ func Expect(op Op, p St, res Result) []Alt {
 		if plan.FailErr != nil {
 			return []Alt{fail("xattr-missing", plan.FailErr...)}
 		}
-		return []Alt{{Name: "xattrs-removed", Body: p.Body, BodyNil: p.Body == nil, X: plan.X, ExpLo: p.Exp, ExpHi: p.Exp, Event: true, NoRetCas: true}}
+		return sizeGate(Alt{Name: "xattrs-removed", Body: p.Body, BodyNil: p.Body == nil, X: plan.X, ExpLo: p.Exp, ExpHi: p.Exp, Event: true, NoRetCas: true}, p.Body, plan.X.Keep, nil)
 
 	case "DeleteSubDocPaths":
 		if absent {
@@ -801,7 +801,7 @@ func expectWriteWithXattrs(op Op, p St, res Result, lo, hi uint32, cc string) []
 			a.ExpAlso = []uint32{lo, hi}
 		}
 	}
-	return sizeGate(a, a.Body, p.X, op.X)
+	return sizeGate(a, a.Body, plan.X.Keep, op.X)
 }
 
 func expectWriteTombstone(op Op, p St, res Result, lo, hi uint32, cc string, deleteBody bool) []Alt {
@@ -853,7 +853,7 @@ func expectWriteTombstone(op Op, p St, res Result, lo, hi uint32, cc string, del
 		}
 		return []Alt{fail("xattr-missing", plan.FailErr...)}
 	}
-	return sizeGate(a, nil, base, op.X)
+	return sizeGate(a, nil, plan.X.Keep, op.X)
 }
 
 func expectResurrection(op Op, p St, res Result, lo, hi uint32) []Alt {
